@@ -7,6 +7,7 @@ import (
 	"go/constant"
 	"go/token"
 	"go/types"
+	"runtime"
 	"sync"
 
 	"golang.org/x/tools/go/ssa"
@@ -256,6 +257,16 @@ func (in *Interp) callFn(caller *Frame, fn *ssa.Function, args []Value, env []Va
 			return r
 		}
 	}
+	if in.noFork > 0 {
+		// inside a package initializer: other packages initialise lazily, and
+		// calls outside reach yield a poison value that faults if ever used.
+		if fn.Synthetic == "package initializer" {
+			return nil
+		}
+		if fn.Blocks == nil || in.eng.denied(fn) {
+			return Poison{}
+		}
+	}
 	if fn.Blocks == nil {
 		// external function without body
 		if fn.Synthetic != "" || fn.Pkg == nil {
@@ -367,7 +378,13 @@ func (in *Interp) runBody(fr *Frame) {
 			if in.steps > in.eng.maxSteps {
 				panic(&pathEnd{kind: "budget", msg: "step budget exceeded"})
 			}
-			switch in.visit(fr, ins) {
+			var k continuation
+			if in.noFork > 0 {
+				k = in.visitInit(fr, ins)
+			} else {
+				k = in.visit(fr, ins)
+			}
+			switch k {
 			case kNext:
 			case kJump:
 				break instrs
@@ -405,6 +422,36 @@ func (fr *Frame) runDefers() {
 	if fr.panicking {
 		panic(fr.panicVal)
 	}
+}
+
+// Poison stands for a value computed by code outside reach during package
+// initialisation. Any later use faults inside the engine (path inconclusive).
+type Poison struct{}
+
+// visitInit executes one instruction of a package initializer; an instruction
+// that touches a poison value yields poison instead of aborting the path.
+func (in *Interp) visitInit(fr *Frame, ins ssa.Instruction) (k continuation) {
+	defer func() {
+		if r := recover(); r != nil {
+			if _, ok := r.(runtime.Error); ok {
+				if v, isV := ins.(ssa.Value); isV {
+					fr.set(v, Poison{})
+				}
+				k = kNext
+				return
+			}
+			if ee, ok := r.(*EngineError); ok {
+				_ = ee
+				if v, isV := ins.(ssa.Value); isV {
+					fr.set(v, Poison{})
+				}
+				k = kNext
+				return
+			}
+			panic(r)
+		}
+	}()
+	return in.visit(fr, ins)
 }
 
 type continuation int
@@ -616,6 +663,9 @@ func (in *Interp) prepareCall(fr *Frame, call *ssa.CallCommon) (Value, []Value) 
 	if call.Method == nil {
 		fn = v
 	} else {
+		if _, isP := v.(Poison); isP {
+			return &NativeFn{name: "poison", fn: func(*Interp, []Value) Value { return Poison{} }}, nil
+		}
 		recv := v.(Iface)
 		if recv.t == nil {
 			in.goPanicRuntime("invalid memory address or nil pointer dereference (method call on nil interface)")
